@@ -606,7 +606,7 @@ fn main() {
             rule: RULE.to_string(),
             exhaustive: false,
             assumptions: vec![
-                "the extractor futures are driven with futures::executor::block_on on hand-built requests (actix TestRequest::to_http_parts, http::Request<axum::body::Body>); no server, no socket, no HTTP/1 parser".into(),
+                "the extractor futures are driven on the calling thread (own poll loop: a Pending without a wake-up is reported as never completing) on hand-built requests (actix TestRequest::to_http_parts, http::Request<axum::body::Body>); no server, no socket, no HTTP/1 parser".into(),
                 "the oracle is the framework's own extractor (web::Json<Value>, web::Query<Value>, axum::Json<Value>) composed with deserr::deserialize: a defect shared by deserr::deserialize and the extractors is out of scope here (C01..C14 cover deserialize)".into(),
                 "actix-web is built without its compress-* features, so Content-Encoding handling is not exercised".into(),
                 "QueryParamError has no ResponseError impl in deserr; it is exercised through a local delegating wrapper (400 + message)".into(),
